@@ -17,9 +17,9 @@ class C04(Prop):
             "sequential, reverse); key-log lines of all connections shuffled; oracle: per-flow packet sequences (bytes and "
             "timestamps) of the mixed export == those of the N solo exports (same packets, others removed); non-trivial = "
             ">= 2 connections actually interleave at the tap; distinct = distinct interleaving signatures")
-    reach = ["same_hosts_diff_client_port", "same_client_port_diff_server", "same_server_diff_clients", "crossed_pair_same_ports", "equal_initial_sequence_numbers", "quic_cid_begins_with_other_connections_cid",
+    reach = ["same_hosts_diff_client_port", "same_client_port_diff_server", "same_server_diff_clients", "crossed_pair_same_ports", "same_server_same_client_port_other_client", "equal_initial_sequence_numbers", "quic_cid_begins_with_other_connections_cid",
              "resumption_shares_master_secret", "v4_v6_mixed",
-             "tls_quic_mixed", "quic_zero_len_cid", "noise", "long_key_log_line_across_block_boundary", "quic_connection_closes_while_others_run", "secrets_block_per_connection", "n_ge_4", "policy_bursty", "policy_sequential"]
+             "tls_quic_mixed", "quic_zero_len_cid", "noise", "quic_like_datagram_to_later_client_socket", "long_key_log_line_across_block_boundary", "quic_connection_closes_while_others_run", "secrets_block_per_connection", "n_ge_4", "policy_bursty", "policy_sequential"]
 
     def plan(self, tier):
         p = super().plan(tier)
@@ -42,7 +42,7 @@ class C04(Prop):
             v6 = None
             if conns and E.chance(65):
                 o = E.choice(conns)
-                mode = E.choice(["hosts", "cport", "server", "crossed"])
+                mode = E.choice(["hosts", "cport", "server", "crossed", "server_cport"])
                 v6 = o["v6"]
                 if mode == "crossed":
                     # the two hosts connect to each other's server port from the same ephemeral port number
@@ -52,6 +52,9 @@ class C04(Prop):
                     kw = {"client_ip": o["c"]["ip"], "server_ip": o["s"]["ip"], "server_port": o["s"]["port"]}
                 elif mode == "cport":
                     kw = {"client_ip": o["c"]["ip"], "client_port": o["c"]["port"]}
+                elif mode == "server_cport":
+                    # another client host that happens to use the same source port number towards the same server
+                    kw = {"server_ip": o["s"]["ip"], "server_port": o["s"]["port"], "client_port": o["c"]["port"]}
                 else:
                     kw = {"server_ip": o["s"]["ip"], "server_port": o["s"]["port"]}
             c2 = dict(cfg)
@@ -133,6 +136,22 @@ class C04(Prop):
             k += 1
         if R.chance(40):
             conns.append(gen.gen_udp_noise(R.fork("udp"), k, used, v6=R.chance(30)))
+        NZ = R.fork("noise2port")
+        tlc = [c for c in conns if c["proto"] == "tls"]
+        if tlc and NZ.chance(20):
+            # an unrelated datagram that looks like a QUIC long header reaches the host and port from which a TLS client
+            # connects a moment later (e.g. a DNS answer to a socket whose port number is reused)
+            v = NZ.choice(tlc)
+            try:
+                nz = gen.gen_udp_noise(NZ.fork("n"), k + 1, used, v6=v["v6"], port=v["c"]["port"], server_ip=v["c"]["ip"])
+                nz["s"]["mac"] = v["c"]["mac"]
+                nz["dgrams"] = [["c", (bytes([0xC0 | NZ.below(16)]) + NZ.bytes(NZ.range(12, 60))).hex()]]
+                nz["t"]["start_us"] = 0
+                v["t"]["start_us"] = max(v["t"].get("start_us", 0), 3000) + 3000
+                conns.append(nz)
+                v["noise_to_client_socket"] = True
+            except (ValueError, RuntimeError):
+                pass
         spec = {"prop": "C04", "conns": conns, "tap": gen.gen_tap(R.fork("tap")), "policy": policy,
                 "keychan": {"mode": "file", "perm_seed": R.bits(30)}}
         if R.chance(15):
@@ -223,8 +242,12 @@ class C04(Prop):
                 out.count("reach:same_server_diff_clients")
             elif c.get("collide") == "crossed":
                 out.count("reach:crossed_pair_same_ports")
+            elif c.get("collide") == "server_cport":
+                out.count("reach:same_server_same_client_port_other_client")
             if c.get("same_isn"):
                 out.count("reach:equal_initial_sequence_numbers")
+            if c.get("noise_to_client_socket"):
+                out.count("reach:quic_like_datagram_to_later_client_socket")
             if c.get("cid_prefix_collision"):
                 out.count("reach:quic_cid_begins_with_other_connections_cid")
             if c.get("resumes") is not None:
